@@ -308,3 +308,9 @@ case(C + "neighbour_colors", params={"adj": Set(STR), "colors": D}, returns=Set(
 case(C + "starts_alpha", params={"key": STR}, returns=INT, requires=["len(key) > 0"],
      ensures={"fn": "result == ite(key[0].isalpha(), 1, 0)"}, canaries={"one": "result == 1", "zero": "result == 0"},
      gen=lambda rng: {"key": rng.choice(["a1", "1a", "_x", "Zz"])})
+
+# `a and b` as a VALUE with operands of unrelated types (a str or a bool): a Union value
+case(C + "ignorable", params={"key": STR}, returns=INT,
+     ensures={"empty": "implies(key == '', result == 0)", "fn": "implies(key != '', result == ite(key[0].isalpha(), 0, 1))"},
+     canaries={"one": "result == 1", "zero": "result == 0"},
+     gen=lambda rng: {"key": rng.choice(["", "a1", "1a", "_x"])})
